@@ -74,7 +74,7 @@ int main(int argc, char** argv) {
     R.rule = "one evaluation = one (map class, n, nb, it, parameter variant, data variant) multi-bunch application compared slice by slice with single-bunch applications; "
              "distinct = FNV of case + multi-bunch output; trivial = Identity";
     R.sample_every = 50;
-    const bool T = R.thorough();
+    const bool T = true /* the wide lattices run in both tiers */; const bool D = R.thorough(); (void)D;
     std::vector<unsigned> ns = T ? std::vector<unsigned>{8, 12, 13, 16, 24} : std::vector<unsigned>{8, 9};
     std::vector<unsigned> nbs = T ? std::vector<unsigned>{2, 3, 4} : std::vector<unsigned>{2};
     for (unsigned n : ns) for (unsigned nb : nbs) for (int kind = 0; kind < NKIND; kind++) for (unsigned it = 1; it <= 4; it++)
